@@ -93,6 +93,33 @@ def e0f_expr(mode):
     return '(S.Zdbb >= 0. ? (S.Qbb - S.Edlevel) : ((S.Qbb - S.Edlevel) - (4. * BB_EMASS)))'
 
 
+def index_obligations(text):
+    out = []
+    i = 0
+    n = 0
+    while True:
+        m = re.search(r'\bx_spthe([12])\[', text[i:])
+        if not m:
+            out.append(text[i:])
+            break
+        a = i + m.start()
+        b = i + m.end()
+        depth = 1
+        j = b
+        while depth:
+            if text[j] == '[':
+                depth += 1
+            elif text[j] == ']':
+                depth -= 1
+            j += 1
+        inner, _ = index_obligations(text[b:j - 1])
+        out.append(text[i:a])
+        out.append('S.spthe%s[bbk_ix(%s)]' % (m.group(1), inner))
+        n += 1
+        i = j
+    return ''.join(out), n
+
+
 def build(db, spec_path, k, mode):
     """query for the segment that starts at cut point k (0 = entry) with the legacy mode `mode`"""
     sp = parse_spec(spec_path)
@@ -102,6 +129,13 @@ def build(db, spec_path, k, mode):
     o.scale_draw = True
     o.abstract_nonlinear = True
     decls, seg, ids = segments.segment_function(fx, T, o, CUTS, segname='bb_seg')
+    # the routine reaches the tables through  double * spthe1 = pars->spthe1 : CBMC's pointer check only knows the bounds
+    # of the whole bbpars object (an index of 4300 lands in the neighbouring member and is NOT flagged - found by a
+    # deliberate off-by-one).  Every access  x_spthe<n>[e]  is therefore rewritten to the member array with an explicit
+    # index obligation.
+    seg, nacc = index_obligations(seg)
+    if nacc < 10:
+        raise bx2c.Unsupported('decay0_bb: only %d table accesses found (expected the spectrum loops)' % nacc)
     pr = bx2c.Printer(T, bx2c.Opts())
     th, _ = extract.types_h(db)
     parts = ['#include "bx_shim.h"', th, '#include "bx_shim_fn.h"', extract.protos_h(db),
@@ -117,6 +151,7 @@ def build(db, spec_path, k, mode):
              'static double bx_divx(double a, double b) { double r = __CPROVER_uninterpreted_divx(a, b); __CPROVER_assume(!(a >= 0.0 && a <= 1.0e300 && b >= 0.5) || (r >= 0.0 && r <= 2.0 * a)); __CPROVER_assume(!(a >= 1.0e-300 && a <= 1.0e300 && b >= 0.5 && b <= 1.0e300) || r > 0.0); return r; }',
              '/* equality of two renderings of the same value (NaN equals NaN) */',
              'static _Bool bx_eq(double a, double b) { return a == b || (a != a && b != b); }',
+             'static int bbk_ix(int i) { __CPROVER_assert(i >= 0 && i < 4300, "C08 decay0_bb: index into spthe1/spthe2 inside the 4300-entry table"); return i; }',
              'static int bb_ncall, bb_nadd, bb_iso_ok; static int bb_call_code[%d], bb_add_code[2]; static double bb_call_e1[%d], bb_call_e2[%d], bb_add_pz[2], bb_add_time[2];' % (NCALL, NCALL, NCALL)]
     stubs = []
     inline = ('particle__ctor', 'particle__set_time', 'particle__set_code', 'particle__set_momentum', 'particle__set_px', 'particle__set_py', 'particle__set_pz',
